@@ -7,6 +7,7 @@ License: 3-clause BSD. (See the COPYRIGHT file)
 
 from __future__ import annotations
 
+import struct
 from string import ascii_letters, digits
 from typing import TYPE_CHECKING, Any, Callable, TypeVar
 
@@ -222,7 +223,8 @@ class Section(Error):
             resolved_field = self.assign.get(command, field_name)
             apply_action(target, operation, key, self.scope, name, command, insert, resolved_field)
             return True
-        except ValueError as exc:
+        except (ValueError, OSError, struct.error) as exc:
+            # value parsers report a bad value with ValueError; inet_pton (OSError) and struct (struct.error) have their own
             return self.error.set(str(exc))
 
     # Schema-based methods
